@@ -247,15 +247,24 @@ theorem runPassDir_forest (p : PassT) (c : Ctx) (fuel : Nat) (ar : Bool) (h : WF
           · exact runPass_forest p (c.withSeg (c.seg.reverseSlots (isMark c c.seg))) fuel (reverse_wf h _) (forest_congr (reverse_treeSame _ _) hF) e
           · exact runPass_forest p c fuel h hF e
 
-theorem runPhase_forest (passes : Array PassT) (bPass : Nat) (c : Ctx) (lo hi : Nat) (dobidi : Bool) (fuel : Nat) (h : WF c.seg) (hF : Forest c.seg) {c' : Ctx}
-    (e : runPhase passes bPass c lo hi dobidi fuel = .ok (some c')) : Forest c'.seg := by
-  refine (runPhase_ind (fun x => WF x.seg ∧ Forest x.seg) passes bPass lo hi dobidi fuel
-    (fun ar k _ _ c1 c2 h1 e1 => ⟨runPassDir_spec _ c1 fuel ar h1.1 e1, runPassDir_forest _ c1 fuel ar h1.1 h1.2 e1⟩) (fun x l hx => hx) (fun x hx => ?_) c ⟨h, hF⟩ e).2
-  refine ⟨bidiStep_wf hx.1, ?_⟩
-  unfold bidiStep
+/-- a glyph change keeps the forest -/
+theorem forest_setGlyph {s : Seg} (h : Forest s) (gadv : Array Int) (i g : Nat) : Forest (s.upd i fun sl => sl.setGlyph gadv g) :=
+  forest_congr (TreeSame.upd s i _ (fun _ => ⟨rfl, rfl, rfl, rfl⟩)) h
+
+theorem bidiStep_forest {c : Ctx} (hF : Forest c.seg) (aMirror : Nat) : Forest (bidiStep c aMirror).seg :=
+  bidiStep_ind Forest aMirror (fun s mark hs => forest_congr (reverse_treeSame _ _) hs) (fun gadv s i g hs => forest_setGlyph hs gadv i g) c hF
+
+theorem startMirror_forest (font : Font) {c : Ctx} (hF : Forest c.seg) : Forest (startMirror font c).seg := by
+  unfold startMirror
   split
-  · exact forest_congr (reverse_treeSame _ _) hx.2
-  · exact hx.2
+  · exact doMirror_ind Forest c font.aMirror (fun s i g hs => forest_setGlyph hs _ i g) hF
+  · exact hF
+
+theorem runPhase_forest (passes : Array PassT) (bPass : Nat) (c : Ctx) (lo hi : Nat) (dobidi : Bool) (fuel : Nat) (h : WF c.seg) (hF : Forest c.seg) {aMirror : Nat} {c' : Ctx}
+    (e : runPhase passes bPass c lo hi dobidi fuel aMirror = .ok (some c')) : Forest c'.seg :=
+  (runPhase_ind (fun x => WF x.seg ∧ Forest x.seg) passes bPass lo hi dobidi fuel aMirror
+    (fun ar k _ _ c1 c2 h1 e1 => ⟨runPassDir_spec _ c1 fuel ar h1.1 e1, runPassDir_forest _ c1 fuel ar h1.1 h1.2 e1⟩) (fun x l hx => hx)
+    (fun x hx => ⟨bidiStep_wf hx.1 aMirror, bidiStep_forest hx.2 aMirror⟩) c ⟨h, hF⟩ e).2
 
 /-! ## `read_text` and `associateChars` -/
 
@@ -373,8 +382,8 @@ theorem shape_forest (font : Font) (text : List Nat) (fuel : Nat) (dir : Nat) {c
     · cases e
     · cases e
     · rename_i c1 h1
-      have w1 := runPhase_spec _ _ _ _ _ _ _ (initSeg_wf font text dir) h1
-      have f1 := runPhase_forest _ _ _ _ _ _ _ (initSeg_wf font text dir) (initSeg_forest font text dir) h1
+      have w1 := runPhase_spec _ _ _ _ _ _ _ (startMirror_wf font (initSeg_wf font text dir)) h1
+      have f1 := runPhase_forest _ _ _ _ _ _ _ (startMirror_wf font (initSeg_wf font text dir)) (startMirror_forest font (initSeg_forest font text dir)) h1
       split at e
       · cases e
       · rename_i seg' ci' hre
